@@ -45,6 +45,14 @@ AddTransceiver(p, k, d, withTrack) ==
   /\ UNCHANGED <<dc, secs, nextMid, hist>>
   /\ last' = [op |-> IF withTrack THEN "addTransceiverTrack" ELSE "addTransceiver", who |-> p, kind |-> k, dir |-> d]
 
+\* a simulcast sender: one sendrecv video transceiver whose sender has n encodings of one track
+AddSimulcast(p, encs) ==
+  /\ "addSimulcast" \in Ops /\ Tick /\ Len(trs[p]) < MaxTrs
+  /\ \A i \in 1..Len(trs[p]) : ~(trs[p][i].kind = "video" /\ ~trs[p][i].track /\ trs[p][i].dir \in {"recvonly", "inactive"})
+  /\ trs' = [trs EXCEPT ![p] = Append(@, [kind |-> "video", dir |-> "sendrecv", track |-> TRUE, mid |-> NoMid, neg |-> FALSE])]
+  /\ UNCHANGED <<dc, secs, nextMid, hist>>
+  /\ last' = [op |-> "addSimulcast", who |-> p, n |-> encs]
+
 \* AddTrack reuses a transceiver of that kind that never sent and has no track, else adds a sendrecv one
 AddTrack(p, k) ==
   /\ "addTrack" \in Ops /\ Tick
@@ -151,6 +159,7 @@ Negotiate(p) ==
 StepOf(c) ==
   CASE c = "addTransceiver" -> \E p \in Peers, k \in Kinds, d \in Dirs, w \in BOOLEAN : AddTransceiver(p, k, d, w)
     [] c = "addTrack"       -> \E p \in Peers, k \in Kinds : AddTrack(p, k)
+    [] c = "addSimulcast"   -> \E p \in Peers, e \in {2, 3} : AddSimulcast(p, e)
     [] c = "removeTrack"    -> \E p \in Peers, i \in 1..MaxTrs + 2 : RemoveTrack(p, i)
     [] c = "stop"           -> \E p \in Peers, i \in 1..MaxTrs + 2 : Stop(p, i)
     [] c = "setMid"         -> \E p \in Peers, i \in 1..MaxTrs + 2 : SetMid(p, i)
